@@ -366,6 +366,68 @@ func (e *tallEngine) runCase(c *TallCase, f *Findings, trace bool) *CaseResult {
 			mp = nil
 			return
 		}
+		// stored content (C09): the cache is exactly the remembered live leaves at
+		// their true positions; every stored position is a root, a remembered leaf,
+		// an ancestor of one or the sibling of one of those, and holds the true hash
+		stats.OracleChecks["tall_forest_content"]++
+		T := mp.TotalRows
+		var cls, det string
+		nCached := 0
+		guard(func() error {
+			return mp.CachedLeaves.ForEach(func(h u.Hash, pos uint64) error {
+				nCached++
+				ro, ok := L.LeafAt[h]
+				switch {
+				case cls != "":
+				case !ok || !fheld[h]:
+					cls, det = "forest-cached-unexpected", fmt.Sprintf("cache holds %x.. (pos %d) which is not a remembered live leaf", h[:4], pos)
+				case ro.Pos(T) != pos:
+					cls, det = "forest-cached-wrong-pos", fmt.Sprintf("cached leaf %x.. at %d, true position %d", h[:4], pos, ro.Pos(T))
+				}
+				return nil
+			})
+		})
+		if cls == "" && nCached != len(fheld) {
+			cls, det = "forest-cached-count", fmt.Sprintf("cache holds %d leaves, %d are remembered", nCached, len(fheld))
+		}
+		if cls == "" {
+			allowed := map[uint64]bool{}
+			for _, r := range L.RootsAt {
+				allowed[r.Pos(T)] = true
+			}
+			for h := range fheld {
+				p := L.LeafAt[h]
+				for {
+					allowed[p.Pos(T)] = true
+					if L.IsRoot(p) {
+						break
+					}
+					allowed[p.Sib().Pos(T)] = true
+					p = p.Parent()
+				}
+			}
+			byPos := map[uint64]H{}
+			for ro, h := range L.Nodes {
+				byPos[ro.Pos(T)] = h
+			}
+			guard(func() error {
+				return mp.Nodes.ForEach(func(pos uint64, l u.Leaf) error {
+					switch {
+					case cls != "":
+					case !allowed[pos]:
+						cls, det = "forest-stored-unneeded", fmt.Sprintf("stores position %d which no remembered leaf needs", pos)
+					case l.Hash != byPos[pos]:
+						cls, det = "forest-stored-wrong-hash", fmt.Sprintf("position %d holds %x.., the node there has %x..", pos, l.Hash[:4], func() []byte { b := byPos[pos]; return b[:4] }())
+					}
+					return nil
+				})
+			})
+		}
+		if cls != "" {
+			violate("C09", cls, fmt.Sprintf("%s (N=%d): %s", where, cur.N, det))
+			mp = nil
+			return
+		}
 		hs := sortedHeld(fheld)
 		if len(hs) == 0 {
 			return
@@ -431,7 +493,10 @@ func (e *tallEngine) runCase(c *TallCase, f *Findings, trace bool) *CaseResult {
 					violate("C06", "forest-undo-err", fmt.Sprintf("MapPollard.Undo failed (N %d->%d): %v", fr.post.N, fr.pre.N, err))
 					mp = nil
 				} else {
-					fheld = fr.fheld
+					// (current - the block's additions) + the block's deletions, DESIGN 4.9
+					for _, a := range fr.adds {
+						delete(fheld, a)
+					}
 					for _, d := range fr.dels {
 						fheld[d] = true // they were cached in order to be deleted
 					}
